@@ -205,6 +205,7 @@ func runC20(c *Ctx) {
 	}
 	ruleTokenCases(c)
 	ruleDigitBase(c)
+	ruleTokenParser(c)
 	ruleUTF8Class(c)
 	ruleZeroReturnsLen(c)
 	c.rule("R-CMP-RANGE", 2, "every return of CompareNatural is a cmp.Compare result or a constant in {-1,0,1}")
